@@ -79,6 +79,7 @@ type K9 struct {
 	Commit     []string          // calls whose good edge commits the batch (kills all dirt)
 	canFail    map[*ssa.Function]bool // summarised function has a feasible failing exit (least fixpoint)
 	sawFail    bool
+	FailGuard  func(Cond) bool // a guard of a deferred closure that holds exactly at the operation's failure exits
 	Infallible map[string]string // callee spec -> reason: its failing edge is infeasible for the values passed
 	FailMarker func(fn *ssa.Function, ret *ssa.Return) (isFail bool, known bool)
 	fns        []*ssa.Function
@@ -532,10 +533,16 @@ func (k *K9) deferredCleans(fn *ssa.Function, ret *ssa.Return, isFail bool) kset
 					gs := GuardsOf(cb)
 					applies := true
 					for _, g := range gs {
-						// guard on a captured variable: `(nil == ^var{...})` false  <=> V != nil
-						if (strings.HasPrefix(g.Canon, "(nil == ") || strings.HasSuffix(g.Canon, " == nil)")) && !g.Sense {
-							applies = isFail && k.returnsCaptured(fn, clo, ret)
-						} else {
+						switch {
+						case (strings.HasPrefix(g.Canon, "(nil == ") || strings.HasSuffix(g.Canon, " == nil)")) && !g.Sense:
+							// guard on a captured variable: `(nil == ^var{...})` false  <=> V != nil
+							applies = applies && isFail && k.returnsCaptured(fn, clo, ret)
+						case strings.HasPrefix(g.Canon, "(#i < len(") && g.Sense:
+							// inside a loop that visits every element (a purge): the loop itself is no condition
+						case k.FailGuard != nil && k.FailGuard(g):
+							// the closure tests the operation's own failure marker (e.g. `!status.Succ`)
+							applies = applies && isFail
+						default:
 							applies = false
 						}
 					}
